@@ -429,7 +429,9 @@ class Unit:
         text = rule_unsafe_block(text, self.rules)
         text = rule_idcast(text, self.rules)
         text = rule_ptr(text, self.rules)
-        if 'R-fcompound' in rules:
+        # always on in units over float_as_real: the installed Verus PANICS (mk_range f64) on a compound assignment to an f64
+        # place, and a changed body may introduce one anywhere
+        if 'R-fcompound' in rules or getattr(self, 'float_unit', False):
             text = rule_fcompound(text, self.rules)
         if 'R-macroassert' in rules:
             text = rule_macroassert(text, self.rules)
@@ -686,6 +688,8 @@ class Unit:
         expanded = []
         for ln in tl:
             st = ln.strip()
+            if st.startswith('//@include ') and 'float_as_real' in st:
+                self.float_unit = True
             if st.startswith('//@include '):
                 parts = st.split()
                 ipath = os.path.join(VERIF, 'units', parts[1])
